@@ -303,4 +303,72 @@ def forWhile {σ ρ : Type} : Nat → σ → (σ → Bool) → (σ → Ctl σ ρ
 structure Untranslatable where
   reason : String
 
+
+/-! ## session.go: the in-memory session between `GetSession` and `Save`
+
+A `*sessions.Session` is identified by its cookie name inside gorilla's per-request registry (`store.Get` hands out the same
+pointer for the same name during one request), so a pointer is a name and the registry is the heap. -/
+structure GSess where
+  Values : Obj        -- `map[interface{}]interface{}` (the code uses string keys only)
+  MaxAge : Int        -- `Options.MaxAge`
+  IsNew : Bool
+abbrev SessPtr := Str
+
+structure SessData where
+  hasRequest : Bool                      -- `sd.request != nil`
+  reg : List (Str × GSess)               -- the registry: every session fetched during this request, by cookie name
+  cookie : Str → Option Obj              -- what the request's cookie of that name decodes to (none: absent or undecodable)
+  maxAgeDefault : Int                    -- `Options.MaxAge` of a session as the store hands it out
+  compress : Str → Str                   -- `compressToken`, `decompressToken` (gzip + base64: parameters of the theorems)
+  decompress : Str → Str
+  mainSession : SessPtr
+  accessSession : SessPtr
+  refreshSession : SessPtr
+  accessTokenChunks : List (Int × SessPtr)      -- `map[int]*sessions.Session`
+  refreshTokenChunks : List (Int × SessPtr)
+  saved : List (Str × GSess)             -- what has been written to the response so far (one Set-Cookie line each), in order
+
+def regGet (reg : List (Str × GSess)) (n : Str) : GSess :=
+  match reg.find? (fun p => p.1 == n) with | some p => p.2 | none => ⟨[], 0, true⟩
+def regHas (reg : List (Str × GSess)) (n : Str) : Bool := reg.any (fun p => p.1 == n)
+/-- (association lists, newest binding first; a rebinding drops the older one, so lengths count distinct keys) -/
+def regSet (reg : List (Str × GSess)) (n : Str) (g : GSess) : List (Str × GSess) :=
+  (n, g) :: reg.filter (fun p => p.1 != n)
+
+/-- `sd.manager.store.Get(sd.request, name)`: the registry's session of that name, created on first use from the request's cookie
+    (a cookie that does not decode gives a new, empty session — the error gorilla reports next to it comes with `IsNew`) -/
+def storeGet (sd : SessData) (n : Str) : (SessPtr × Err) × SessData :=
+  if regHas sd.reg n then ((n, none), sd)
+  else
+    let g : GSess := match sd.cookie n with
+      | some vals => ⟨vals, sd.maxAgeDefault, false⟩
+      | none => ⟨[], sd.maxAgeDefault, true⟩
+    ((n, none), { sd with reg := (n, g) :: sd.reg })
+
+def mapSet (m : Obj) (k : Str) (v : Any) : Obj := (k, v) :: m.filter (fun p => p.1 != k)
+
+def sessVal (sd : SessData) (p : SessPtr) (k : Str) : Any := mapGet (regGet sd.reg p).Values k
+def sessIsNew (sd : SessData) (p : SessPtr) : Bool := (regGet sd.reg p).IsNew
+def sessSetVal (sd : SessData) (p : SessPtr) (k : Str) (v : Any) : SessData :=
+  { sd with reg := regSet sd.reg p { regGet sd.reg p with Values := mapSet (regGet sd.reg p).Values k v } }
+def sessClearValues (sd : SessData) (p : SessPtr) : SessData :=
+  { sd with reg := regSet sd.reg p { regGet sd.reg p with Values := [] } }
+def sessSetMaxAge (sd : SessData) (p : SessPtr) (a : Int) : SessData :=
+  { sd with reg := regSet sd.reg p { regGet sd.reg p with MaxAge := a } }
+/-- `session.Save(r, w)`: one more Set-Cookie line (the encoding error a too long value gives is `Codec.fits`' business) -/
+def sessSave (sd : SessData) (p : SessPtr) : Err × SessData :=
+  (none, { sd with saved := sd.saved ++ [(p, regGet sd.reg p)] })
+
+def imapGet (m : List (Int × SessPtr)) (i : Int) : SessPtr × Bool :=
+  match m.find? (fun p => p.1 == i) with | some p => (p.2, true) | none => ([], false)
+def imapSet (m : List (Int × SessPtr)) (i : Int) (s : SessPtr) : List (Int × SessPtr) :=
+  (i, s) :: m.filter (fun p => p.1 != i)
+
+/-- `fmt.Sprintf("%s_%d", base, i)` -/
+def chunkName (base : Str) (i : Int) : Str := base ++ ['_'] ++ (toString i).toList
+/-- `strings.Join(xs, sep)` -/
+def strsJoin (xs : List Str) (sep : Str) : Str := sep.intercalate xs
+/-- `for i, x := range xs` -/
+def enum {α : Type} (xs : List α) : List (Int × α) := xs.zipIdx.map (fun p => ((p.2 : Int), p.1))
+
 end Oidc.Go
